@@ -3,7 +3,10 @@
    Outcomes: Ok v | Thrown code | Code code v; values: VEmpty | VInput | VCall (the 64-bit call made) | VUndef (UB).
    The success clause for all inputs is the sweep model's (C01/C10); here only Execute's NoClip prologue.
    _refuted theorems state that the property's claim is FALSE of the faithful model; their witnesses are replayed on the
-   real code by checks/C11.py (grid cells of the same entry point). *)
+   real code by checks/C11.py (grid cells of the same entry point).
+   The model mirrors the tree with the fixes "ScalePath checks the range like ScalePaths", "Minkowski*(PathD) check precision
+   and error code", "RectClip(PathsD) checks the range of the rectangle", "BooleanOp(PathsD) looks at ClipperD::ErrorCode()"
+   and "InflatePaths(PathsD) has no delta == 0 shortcut". *)
 From Coq Require Import ZArith Floats List.
 From Clip Require Import base.Geom.
 From Clip Require Import base.FloatModel.
@@ -31,110 +34,144 @@ Proof.
 Qed.
 Print Assumptions C11_check_precision_range.
 
+(* ---- success clause for all inputs: the sweep-model theorems (C11_never_fails*, from model/Sweep1D.v) are added here by
+   the integrator ---- *)
+
 (* precision outside +-8 is reported by: BooleanOp/Intersect/Union/Difference/Xor(PathsD) (+ tree), Union(subjects),
-   InflatePaths(PathsD) [delta <> 0 when exceptions are disabled], RectClip/RectClipLines(PathsD) [non-empty rectangle
-   and paths], TrimCollinear(PathD), and -- with exceptions -- the ClipperD constructor. *)
+   InflatePaths(PathsD) [every delta], RectClip/RectClipLines(PathsD) [non-empty rectangle and paths],
+   TrimCollinear(PathD), MinkowskiSum/Diff(PathD), and -- with exceptions -- the ClipperD constructor. *)
 Theorem C11_precision_reported : forall pow10 p, ~ (- 8 <= p <= 8) ->
   (forall S C, to_outcome (booleanopD true pow10 p S C) = Thrown 1 /\ to_outcome (booleanopD false pow10 p S C) = Code 1 VEmpty) /\
   (forall S, to_outcome (union1D true pow10 p S) = Thrown 1 /\ to_outcome (union1D false pow10 p S) = Code 1 VEmpty) /\
-  (forall ps d a, to_outcome (inflateD true pow10 p ps d a) = Thrown 1 /\
-                  (feqb d 0 = false -> to_outcome (inflateD false pow10 p ps d a) = Code 1 VEmpty)) /\
+  (forall ps d a, to_outcome (inflateD true pow10 p ps d a) = Thrown 1 /\ to_outcome (inflateD false pow10 p ps d a) = Code 1 VEmpty) /\
   (forall r ps, rect_is_empty r = false -> ps <> [] ->
                 to_outcome (rectclipD true pow10 p r ps) = Thrown 1 /\ to_outcome (rectclipD false pow10 p r ps) = Code 1 VEmpty) /\
   (forall pth, to_outcome (trimcollinearD true pow10 p pth) = Thrown 1 /\ to_outcome (trimcollinearD false pow10 p pth) = Code 1 VEmpty) /\
+  (forall pat pth, to_outcome (minkowskiD true pow10 p pat pth) = Thrown 1 /\ to_outcome (minkowskiD false pow10 p pat pth) = Code 1 VEmpty) /\
   (forall aS aO aC S O C, to_outcome (clipperD_run true pow10 p aS aO aC S O C) = Thrown 1) /\
   Z.testbit 1 0 = true.
 Proof.
   intros pow10 p H.
   split. { intros S C. split; [exact (booleanopD_precision_on pow10 p S C H)|exact (booleanopD_precision_off pow10 p S C H)]. }
   split. { intros S. split; [exact (union1D_precision_on pow10 p S H)|exact (union1D_precision_off pow10 p S H)]. }
-  split. { intros ps d a. split; [exact (inflateD_precision_on pow10 p ps d a H)|intros Hd; exact (inflateD_precision_off pow10 p ps d a H Hd)]. }
+  split. { intros ps d a. split; [exact (inflateD_precision_on pow10 p ps d a H)|exact (inflateD_precision_off pow10 p ps d a H)]. }
   split. { intros r ps Hr Hne. split; [exact (rectclipD_precision_on pow10 p r ps H Hr Hne)|exact (rectclipD_precision_off pow10 p r ps H Hr Hne)]. }
   split. { intros pth. split; [exact (trimcollinearD_precision_on pow10 p pth H)|exact (trimcollinearD_precision_off pow10 p pth H)]. }
+  split. { intros pat pth. split; [exact (minkowskiD_precision_on pow10 p pat pth H)|exact (minkowskiD_precision_off pow10 p pat pth H)]. }
   split. { intros aS aO aC S O C. exact (clipperD_precision_on pow10 p aS aO aC S O C H). }
   reflexivity.
 Qed.
 Print Assumptions C11_precision_reported.
 
-(* ... and silently accepted by: *)
-Theorem C11_precision_minkowski_refuted :
-  ~ (- 8 <= 12 <= 8) /\ forall exc, is_call (to_outcome (minkowskiD exc pow10_spec 12 tri sq)) = true.
-Proof. exact minkowskiD_precision_ignored. Qed.
-Print Assumptions C11_precision_minkowski_refuted.
+(* RectClip/RectClipLines(PathsD) on an empty rectangle or no paths: the (empty) answer does not depend on the precision,
+   which is never looked at -- nothing is computed from it, so nothing is "accepted" (not a refutation of the property) *)
+Theorem C11_rectclip_empty_input : forall exc pow10 p r ps, rect_is_empty r = true \/ ps = [] ->
+  to_outcome (rectclipD exc pow10 p r ps) = Ok VEmpty.
+Proof. intros exc pow10 p r ps H. rewrite (rectclipD_empty_shortcut pow10 exc p r ps H). reflexivity. Qed.
+Print Assumptions C11_rectclip_empty_input.
 
-Theorem C11_precision_inflate_delta0_refuted :
-  ~ (- 8 <= 12 <= 8) /\ to_outcome (inflateD false pow10_spec 12 [sq] 0 0) = Code 1 VInput.
-Proof. exact inflateD_delta0_noexc. Qed.
-Print Assumptions C11_precision_inflate_delta0_refuted.
-
+(* ... and, with exceptions disabled, still accepted by ClipperD used directly: the code is set (ErrorCode() = 1), the
+   precision is clamped to 8 and a result is computed *)
 Theorem C11_precision_clipperD_noexc_refuted :
   ~ (- 8 <= 12 <= 8) /\
   exists c, to_outcome (clipperD_run false pow10_spec 12 true true true [sq] [] []) = Code 1 (VCall c) /\ c_paths c <> [[]; []; []].
 Proof. exact clipperD_precision_noexc. Qed.
 Print Assumptions C11_precision_clipperD_noexc_refuted.
 
-Theorem C11_precision_rectclip_empty_refuted :
-  ~ (- 8 <= 12 <= 8) /\ to_outcome (rectclipD true pow10_spec 12 (0%float, 0%float, 0%float, 5%float) [sq]) = Ok VEmpty.
-Proof. exact rectclipD_empty_before_precision. Qed.
-Print Assumptions C11_precision_rectclip_empty_refuted.
-
-(* coordinates failing ScalePaths' range test are reported by ScalePaths itself and by the wrappers that look at the code *)
+(* coordinates failing the range test (+-MAX_COORD after scaling) are reported by ScalePaths and ScalePath themselves and
+   by every PathsD/PathD wrapper; RectClip also tests its rectangle *)
 Theorem C11_range_reported : forall pow10 p, - 8 <= p <= 8 ->
   (forall sx sy ps ec, range_ok sx sy ps = false ->
      scale_paths_E true sx sy ps ec = Throw 64 (Z.lor ec 64) /\ scale_paths_E false sx sy ps ec = Val (Some [], Z.lor ec 64)) /\
-  (forall ps d a, feqb d 0 = false -> range_ok (pow10 p) (pow10 p) ps = false ->
+  (forall sx sy pth ec, feqb sx 0 || feqb sy 0 = false -> range_ok sx sy [pth] = false ->
+     scale_path_E true sx sy pth ec = Throw 64 (Z.lor ec 64) /\ scale_path_E false sx sy pth ec = Val (Some [], Z.lor ec 64)) /\
+  (forall ps d a, range_ok (pow10 p) (pow10 p) ps = false ->
      to_outcome (inflateD true pow10 p ps d a) = Thrown 64 /\ to_outcome (inflateD false pow10 p ps d a) = Code 64 VEmpty) /\
-  (forall r r64 ps, rect_is_empty r = false -> ps <> [] -> scale_rect (pow10 p) r = Some r64 ->
+  (forall r r64 ps, rect_is_empty r = false -> ps <> [] -> rect_range_ok (pow10 p) r = true -> scale_rect (pow10 p) r = Some r64 ->
      range_ok (pow10 p) (pow10 p) ps = false ->
+     to_outcome (rectclipD true pow10 p r ps) = Thrown 64 /\ to_outcome (rectclipD false pow10 p r ps) = Code 64 VEmpty) /\
+  (forall r ps, rect_is_empty r = false -> ps <> [] -> rect_range_ok (pow10 p) r = false ->
      to_outcome (rectclipD true pow10 p r ps) = Thrown 64 /\ to_outcome (rectclipD false pow10 p r ps) = Code 64 VEmpty) /\
   (forall S O C, range_ok (scaleD_model pow10 p) (scaleD_model pow10 p) S = false ->
      to_outcome (clipperD_run true pow10 p true true true S O C) = Thrown 64) /\
   (forall S C, range_ok (scaleD_model pow10 p) (scaleD_model pow10 p) S = false ->
-     to_outcome (booleanopD true pow10 p S C) = Thrown 64).
+     to_outcome (booleanopD true pow10 p S C) = Thrown 64) /\
+  (forall S C, range_ok (scaleD_model pow10 p) (scaleD_model pow10 p) S = false \/
+               range_ok (scaleD_model pow10 p) (scaleD_model pow10 p) C = false ->
+     to_outcome (booleanopD false pow10 p S C) = Ok VEmpty) /\
+  (forall S, range_ok (scaleD_model pow10 p) (scaleD_model pow10 p) S = false ->
+     to_outcome (union1D false pow10 p S) = Ok VEmpty) /\
+  (forall pth, feqb (pow10 p) 0 = false -> range_ok (pow10 p) (pow10 p) [pth] = false ->
+     to_outcome (trimcollinearD true pow10 p pth) = Thrown 64 /\ to_outcome (trimcollinearD false pow10 p pth) = Code 64 VEmpty) /\
+  (forall pat pth, feqb (pow10 p) 0 = false ->
+     range_ok (pow10 p) (pow10 p) [pat] = false \/ range_ok (pow10 p) (pow10 p) [pth] = false ->
+     (exists ec, minkowskiD true pow10 p pat pth = Throw 64 ec) /\
+     (exists ec, minkowskiD false pow10 p pat pth = Val (ec, VEmpty) /\ Z.testbit ec 6 = true)).
 Proof.
   intros pow10 p Hp.
   split. { intros sx sy ps ec H. split; [exact (scale_paths_range_on sx sy ps ec H)|exact (scale_paths_range_off sx sy ps ec H)]. }
-  split. { intros ps d a Hd Hr. exact (inflateD_range pow10 p ps d a Hp Hd Hr). }
-  split. { intros r r64 ps Hre Hne Hr64 Hr. exact (rectclipD_range pow10 p r r64 ps Hp Hre Hne Hr64 Hr). }
+  split. { intros sx sy pth ec Hz H. split; [exact (scale_path_range_on sx sy pth ec Hz H)|exact (scale_path_range_off sx sy pth ec Hz H)]. }
+  split. { intros ps d a Hr. exact (inflateD_range pow10 p ps d a Hp Hr). }
+  split. { intros r r64 ps Hre Hne Hrr Hr64 Hr. exact (rectclipD_range pow10 p r r64 ps Hp Hre Hne Hrr Hr64 Hr). }
+  split. { intros r ps Hre Hne Hrr. exact (rectclipD_rect_range pow10 p r ps Hp Hre Hne Hrr). }
   split. { intros S O C Hr. exact (clipperD_range_on pow10 p S O C Hp Hr). }
-  intros S C Hr. exact (booleanopD_range_on pow10 p S C Hp Hr).
+  split. { intros S C Hr. exact (booleanopD_range_on pow10 p S C Hp Hr). }
+  split. { intros S C Hr. exact (booleanopD_range_off pow10 p S C Hp Hr). }
+  split. { intros S Hr. exact (union1D_range_off pow10 p S Hp Hr). }
+  split. { intros pth Hz Hr. exact (trimcollinearD_range pow10 p pth Hp Hz Hr). }
+  intros pat pth Hz Hr. exact (minkowskiD_range pow10 p pat pth Hp Hz Hr).
 Qed.
 Print Assumptions C11_range_reported.
 
-(* exceptions disabled: BooleanOp(PathsD) and ClipperD drop the oversized set and return a result for the rest *)
-Theorem C11_range_booleanop_noexc_refuted :
-  range_ok (scaleD_spec 2) (scaleD_spec 2) [huge_sq] = false /\
-  exists c, to_outcome (booleanopD false pow10_spec 2 [huge_sq] [sq]) = Ok (VCall c) /\ nth 0 (c_paths c) [] = [].
-Proof. exact booleanopD_range_noexc. Qed.
-Print Assumptions C11_range_booleanop_noexc_refuted.
+(* the hypotheses are satisfiable, and the inputs that used to be accepted silently are rejected *)
+Theorem C11_range_reported_sat :
+  (range_ok 100 100 [huge_sq] = false /\ range_ok 100 100 [big_sq] = false /\ in_coord_range (pow10_spec 2) [big_sq] = false /\
+   rect_range_ok 100 (0%float, 0%float, 0x1p+300%float, 5%float) = false /\
+   rect_range_ok 100 (0%float, 0%float, 5%float, 5%float) = true /\
+   feqb (pow10_spec 2) 0 = false) /\
+  ((scale_path_E true 100 100 huge_sq 0 = Throw 64 64 /\ scale_path_E false 100 100 big_sq 0 = Val (Some [], 64)) /\
+   (to_outcome (trimcollinearD true pow10_spec 2 big_sq) = Thrown 64 /\ to_outcome (trimcollinearD false pow10_spec 2 huge_sq) = Code 64 VEmpty) /\
+   (to_outcome (minkowskiD true pow10_spec 2 tri big_sq) = Thrown 64 /\ to_outcome (minkowskiD false pow10_spec 2 tri huge_sq) = Code 64 VEmpty) /\
+   (to_outcome (rectclipD true pow10_spec 2 (0%float, 0%float, 0x1p+300%float, 5%float) [sq]) = Thrown 64 /\
+    to_outcome (rectclipD false pow10_spec 2 (0%float, 0%float, 0x1p+300%float, 5%float) [sq]) = Code 64 VEmpty) /\
+   to_outcome (booleanopD false pow10_spec 2 [huge_sq] [sq]) = Ok VEmpty).
+Proof. split; [exact range_hyps_sat|exact range_now_reported]. Qed.
+Print Assumptions C11_range_reported_sat.
 
+(* exceptions disabled, ClipperD used directly: the oversized subject is dropped (ErrorCode() = 64) and a result is computed
+   from the other operands; the C exports BooleanOpD / BooleanOp_PolyTreeD do the same and return 0 *)
 Theorem C11_range_clipperD_noexc_refuted :
   exists c, to_outcome (clipperD_run false pow10_spec 2 true true true [huge_sq] [] [sq]) = Code 64 (VCall c) /\ nth 2 (c_paths c) [] <> [].
 Proof. exact clipperD_range_noexc. Qed.
 Print Assumptions C11_range_clipperD_noexc_refuted.
 
-(* NaN passes ScalePaths' range test (undefined conversion, nothing reported), in both builds *)
+Theorem C11_range_export_booleanopD_noexc_refuted :
+  exists c, export_booleanopD false pow10_spec 2 1 2 [huge_sq] [] [sq] = inl (Val (0, VCall c)) /\ nth 0 (c_paths c) [] = []
+            /\ nth 2 (c_paths c) [] <> [].
+Proof. exact export_booleanopD_range_noexc. Qed.
+Print Assumptions C11_range_export_booleanopD_noexc_refuted.
+
+(* NaN passes every range test (undefined conversion, nothing reported), in both builds *)
 Theorem C11_range_nan_refuted :
   (forall exc, scale_paths_E exc 100 100 [nan_sq] 0 = Val (None, 0)) /\
-  (forall exc, to_outcome (booleanopD exc pow10_spec 2 [nan_sq] [sq]) = Ok VUndef).
-Proof. split; [exact scale_paths_nan_unchecked|exact booleanopD_nan_unchecked]. Qed.
+  (forall exc, scale_path_E exc 100 100 nan_sq 0 = Val (None, 0)) /\
+  (forall exc, to_outcome (booleanopD exc pow10_spec 2 [nan_sq] [sq]) = Ok VUndef) /\
+  (forall exc, to_outcome (rectclipD exc pow10_spec 2 (0%float, 0%float, nan, 5%float) [sq]) = Ok VUndef).
+Proof.
+  split; [exact scale_paths_nan_unchecked|]. split; [exact scale_path_nan_unchecked|].
+  split; [exact booleanopD_nan_unchecked|exact rectclipD_rect_nan_unchecked].
+Qed.
 Print Assumptions C11_range_nan_refuted.
 
-(* ScalePath has no range test: TrimCollinear(PathD), MinkowskiSum/Diff(PathD); ScaleRect neither; nor the C exports *)
-Theorem C11_range_scalepath_refuted :
-  (forall exc, scale_path_E exc 100 100 huge_sq 0 = Val (None, 0)) /\
-  (forall exc, to_outcome (trimcollinearD exc pow10_spec 2 huge_sq) = Ok VUndef /\
-               is_call (to_outcome (trimcollinearD exc pow10_spec 2 big_sq)) = true /\
-               in_coord_range (pow10_spec 2) [big_sq] = false) /\
-  (forall exc, to_outcome (minkowskiD exc pow10_spec 2 tri huge_sq) = Ok VUndef /\
-               is_call (to_outcome (minkowskiD exc pow10_spec 2 tri big_sq)) = true) /\
-  (forall exc, to_outcome (rectclipD exc pow10_spec 2 (0%float, 0%float, 0x1p+300%float, 5%float) [sq]) = Ok VUndef) /\
-  export_inflateD pow10_spec 2 [huge_sq] 1 0 = inl (Val (0, VUndef)).
-Proof.
-  split; [exact scale_path_range_unchecked|]. split; [exact trimcollinearD_range_unchecked|].
-  split; [exact minkowskiD_range_unchecked|]. split; [exact rectclipD_rect_unchecked|exact export_inflateD_range_unchecked].
-Qed.
-Print Assumptions C11_range_scalepath_refuted.
+(* the C exports InflatePathsD / InflatePathD / RectClipD / RectClipLinesD convert paths and rectangle with no range test *)
+Theorem C11_range_export_refuted :
+  (export_inflateD pow10_spec 2 [huge_sq] 1 0 = inl (Val (0, VUndef)) /\
+   exists c, export_inflateD pow10_spec 2 [big_sq] 1 0 = inl (Val (0, VCall c))) /\
+  (export_rectD pow10_spec 2 (0%float, 0%float, 5%float, 5%float) [huge_sq] = inl (Val (0, VUndef)) /\
+   export_rectD pow10_spec 2 (0%float, 0%float, 0x1p+300%float, 5%float) [sq] = inl (Val (0, VUndef)) /\
+   exists c, export_rectD pow10_spec 2 (0%float, 0%float, 0x1.47ae147ae147bp+55%float, 5%float) [sq] = inl (Val (0, VCall c))).
+Proof. split; [exact export_inflateD_range_unchecked|exact export_rectD_range_unchecked]. Qed.
+Print Assumptions C11_range_export_refuted.
 
 (* zero scale: reported with exceptions ... *)
 Theorem C11_zero_scale : forall sx sy, feqb sx 0 || feqb sy 0 = true ->
@@ -153,6 +190,12 @@ Theorem C11_zero_scale_noexc_refuted :
   polypathD_child false 0 [(3, 4)] = Val (0, [(3%float, 4%float)]).
 Proof. split; [exact scale_path_zero_off|exact polypathD_zero_off]. Qed.
 Print Assumptions C11_zero_scale_noexc_refuted.
+
+(* ... and the range test is then made with the repaired scale 1 *)
+Theorem C11_zero_scale_then_range_noexc : forall pth ec, range_ok 1 1 [pth] = false ->
+  scale_path_E false 0 0 pth ec = Val (Some [], Z.lor (Z.lor ec 2) 64).
+Proof. exact scale_path_zero_then_range_off. Qed.
+Print Assumptions C11_zero_scale_then_range_noexc.
 
 (* odd number of coordinates *)
 Theorem C11_odd_count : forall vals,
